@@ -27,7 +27,7 @@ func init() {
 		Assumptions: []string{"registrations precede first use of the same instance (what the API documents); a tag on a slice/map field selects the container treatment, not the element codec (comment in codec.go)"},
 		Work:        c17Work,
 		Post: func(a *mc.Agg) []string {
-			return needDims(a, "bfs-state", "probe:value", "probe:tagged-custom", "probe:options", "default-instance", "package-functions", "default-registration", "probe-order:reverse")
+			return needDims(a, "bfs-state", "probe:value", "probe:tagged-custom", "probe:options", "default-instance", "package-functions", "default-registration", "probe-order:reverse", "subject-registration")
 		},
 	})
 }
@@ -234,6 +234,9 @@ func c17Probes() []c17Probe {
 var c17Cfgs = []ref.Cfg{{}, {ProtoTime: true, ProtoArrays: true}}
 
 func c17Work(c *mc.Ctx) {
+	if c.Owns(2) {
+		c17Subjects(c)
+	}
 	if !c.Owns(0) && !c.Owns(1) {
 		return
 	}
@@ -460,6 +463,134 @@ func c17Work(c *mc.Ctx) {
 				if !bytes.Equal(before, after) || !bytes.Equal(fresh, ref.Uvarint(nil, ref.ZigZag(5))) {
 					c.Violation("default-registration|leaked-into-instances", fmt.Sprintf("before %s after %s fresh %s", hx(before), hx(after), hx(fresh)))
 					return
+				}
+				c.Outcome("ok")
+			})
+		}
+	}
+}
+
+// subjCodec is a marker codec usable for any registered type: it always writes the varint
+// 2000+id (so the probes can see which codec ran) and ignores what it reads.
+type subjCodec struct {
+	id int
+	rt reflect.Type
+}
+
+func (m subjCodec) Omit(ptr unsafe.Pointer) bool { return false }
+func (m subjCodec) Read(data []byte, ptr unsafe.Pointer, wt plenccore.WireType) (int, error) {
+	_, n := plenccore.ReadVarUint(data)
+	if n <= 0 {
+		return 0, fmt.Errorf("subject marker: bad varint")
+	}
+	return n, nil
+}
+func (m subjCodec) New() unsafe.Pointer          { return reflect.New(m.rt).UnsafePointer() }
+func (m subjCodec) WireType() plenccore.WireType { return plenccore.WTVarInt }
+func (m subjCodec) Descriptor() plenccodec.Descriptor {
+	return plenccodec.Descriptor{Type: plenccodec.FieldTypeUint}
+}
+func (m subjCodec) Size(ptr unsafe.Pointer, tag []byte) int {
+	return len(tag) + plenccore.SizeVarUint(uint64(2000+m.id))
+}
+func (m subjCodec) Append(data []byte, ptr unsafe.Pointer, tag []byte) []byte {
+	return plenccore.AppendVarUint(append(data, tag...), uint64(2000+m.id))
+}
+
+// c17Subjects: the (type, tag) key for every KIND of registered type. For each subject type
+// and each tag name (none, a built-in option name, a custom name) one registration is made
+// on a fresh instance; the registered codec must then be the one used for exactly that type
+// with exactly that tag - directly, as a struct field, behind a pointer - must not be used
+// for the same type under another tag or none, and a second instance must be unaffected.
+func c17Subjects(c *mc.Ctx) {
+	subjects := []reflect.Type{
+		reflect.TypeOf(gen.Marker(0)), reflect.TypeOf(gen.NString("")), reflect.TypeOf(gen.In{}), reflect.TypeOf(gen.NSliceStr(nil)), reflect.TypeOf(gen.NSliceF64(nil)),
+		reflect.TypeOf(gen.NMapSI(nil)), reflect.TypeOf(gen.NPtrInt(nil)), reflect.TypeOf(gen.NBytes(nil)), reflect.TypeOf([]float64(nil)), reflect.TypeOf([]string(nil)),
+		reflect.TypeOf(map[string]string(nil)), reflect.TypeOf(time.Time{}), reflect.TypeOf(int32(0)), reflect.TypeOf(""),
+	}
+	tags := []string{"", "flat", "intern", "proto", "custom"}
+	marker := plenccore.AppendVarUint(nil, 2007)
+	for _, rt := range subjects {
+		for _, regTag := range tags {
+			if !c.Begin(fmt.Sprintf(`{"set":"subjects","type":%q,"registered_tag":%q}`, rt.String(), regTag)) {
+				continue
+			}
+			c.AddEvals(1)
+			c.Count("states", 1)
+			c.Dim("subject-registration")
+			c.NonTrivial()
+			pre := fmt.Sprintf("subjects|%s|reg=%q|", rt, regTag)
+			c.Guard(pre, func() {
+				p := NewPlenc(ref.Cfg{})
+				other := NewPlenc(ref.Cfg{})
+				fresh := NewPlenc(ref.Cfg{})
+				if regTag == "" {
+					p.RegisterCodec(rt, subjCodec{7, rt})
+				} else {
+					p.RegisterCodecWithTag(rt, regTag, subjCodec{7, rt})
+				}
+				field := func(ft reflect.Type, useTag string) reflect.Type {
+					tg := `plenc:"1"`
+					if useTag != "" {
+						tg = `plenc:"1,` + useTag + `"`
+					}
+					return reflect.StructOf([]reflect.StructField{{Name: "F", Type: ft, Tag: reflect.StructTag(tg)}, {Name: "Z", Type: reflect.TypeOf(0), Tag: `plenc:"9"`}})
+				}
+				enc := func(q *plenc.Plenc, st reflect.Type, ptrField bool) (string, error) {
+					v := reflect.New(st)
+					if ptrField {
+						v.Elem().Field(0).Set(reflect.New(st.Field(0).Type.Elem()))
+					}
+					b, err := q.Marshal(nil, v.Interface())
+					return hx(b), err
+				}
+				for _, useTag := range tags {
+					c.Ops(4)
+					hit := useTag == regTag
+					// (1) direct lookup
+					cd, err := p.CodecForTypeWithTag(rt, useTag)
+					_, isMarker := cd.(subjCodec)
+					if hit && (err != nil || !isMarker) {
+						c.Violation(pre+"registered-codec-not-returned-for-its-key", fmt.Sprintf("CodecForTypeWithTag(%s, %q) = %T, %v", rt, useTag, cd, err))
+						return
+					}
+					if !hit && isMarker {
+						c.Violation(pre+"registered-codec-returned-for-another-tag", fmt.Sprintf("CodecForTypeWithTag(%s, %q) returned the codec registered under %q", rt, useTag, regTag))
+						return
+					}
+					// (2) as a struct field and (3) behind a pointer, with that tag
+					for _, ptr := range []bool{false, true} {
+						if ptr && (rt.Kind() == reflect.Map || rt.Kind() == reflect.Ptr) {
+							continue
+						}
+						ft := rt
+						if ptr {
+							ft = reflect.PointerTo(rt)
+						}
+						st := field(ft, useTag)
+						// the intern option is consumed by the struct builder: the field's codec is looked up untagged
+						hit := useTag == regTag
+						if useTag == "intern" {
+							hit = regTag == ""
+						}
+						got, gerr := enc(p, st, ptr)
+						want, werr := enc(fresh, st, ptr)
+						wantMarker := hx(append([]byte{0x08}, marker...))
+						switch {
+						case hit && (gerr != nil || got != wantMarker):
+							c.Violation(pre+fmt.Sprintf("registered-codec-not-used-in-field:ptr=%v", ptr), fmt.Sprintf("field %s tagged %q encodes as %s (%v), the registered codec writes %s", ft, useTag, got, gerr, wantMarker))
+							return
+						case !hit && ((gerr == nil) != (werr == nil) || (gerr == nil && got != want)):
+							c.Violation(pre+fmt.Sprintf("registration-leaks-to-another-tag:ptr=%v", ptr), fmt.Sprintf("field %s tagged %q: %s (%v) on the instance with a registration under %q, %s (%v) on a fresh instance", ft, useTag, got, gerr, regTag, want, werr))
+							return
+						}
+						// (4) another instance never sees it
+						ogot, oerr := enc(other, st, ptr)
+						if (oerr == nil) != (werr == nil) || (oerr == nil && ogot != want) {
+							c.Violation(pre+"registration-leaks-to-another-instance", fmt.Sprintf("field %s tagged %q: %s (%v) vs fresh %s (%v)", ft, useTag, ogot, oerr, want, werr))
+							return
+						}
+					}
 				}
 				c.Outcome("ok")
 			})
